@@ -19,6 +19,8 @@ AS_MAPPER = [
     'termination of every mapper loop is proved (decreases clauses); the universal client is ghost-instrumented code that is never executed',
 ]
 
+AS_ANYMOD = 'ASSUMED contract on key_transforms::is_any_modifier (external_body: its body is `keys.iter().any(closure)`, an iterator adapter without a usable specification in this Verus): it returns true iff the list contains a modifier; compared exhaustively with the real function for every list of length <= 4 over a 10-key alphabet on every run (extras: anymod_bounded; bounded, not a proof)'
+
 TB_LOOP = TB_COMMON + [
     'the loop is verified against the CONTRACT of the Driver trait (ghost state failed/sends/reads_live/kb_pending/tab_pending/tablet/just_switched/interrupts); that RealDriver (mio readiness, EAGAIN -> Busy, ENODEV -> End, nix read/write) meets this contract is assumed, not proved',
     'E4: only WorkingRepeat, Device, PollResult, trait Driver, Next and do_remapping_loop_one_device of remapping_loop.rs are part of the verified text; the thread spawning / device discovery around them is not',
@@ -48,7 +50,7 @@ AS_CONV = [
 PROPS = {
     'C19': dict(units=['mapper'], level='proof', trusted_base=TB_MAPPER, assumptions=AS_MAPPER, witness='mapper'),
     'C01': dict(units=['mapper'], level='proof', trusted_base=TB_MAPPER, assumptions=AS_MAPPER, witness='mapper', rests_on=['C19']),
-    'C02': dict(units=['mapper'], level='proof', trusted_base=TB_MAPPER, assumptions=AS_MAPPER + ['clause (b) (a key with a single-key mapping that occurs in no output never appears) is NOT yet covered by a contract; clauses (a), (c), (d) are'], witness='mapper', rests_on=['C19', 'C01']),
+    'C02': dict(units=['mapper'], level='proof', trusted_base=TB_MAPPER, assumptions=AS_MAPPER, witness='mapper', rests_on=['C19', 'C01']),
     'C03': dict(units=['mapper'], level='proof', trusted_base=TB_MAPPER, assumptions=AS_MAPPER + ['"held" is read as "considered pressed by the mapper"; for layouts without absorbing mappings and histories without release-all the universal client proves that this is exactly the set of physically held keys'], witness='mapper', rests_on=['C19']),
     'C06': dict(units=['mapper'], level='proof', trusted_base=TB_MAPPER, assumptions=AS_MAPPER + ['ONLY the reset clause is decided (after every physical key has been released, and after release_all, nothing is considered pressed and nothing is held on the virtual keyboard); "answers every subsequent event sequence exactly as a new mapper" is a relation between two runs (the fields mapped_absorbed_keys / absorbing_trigger / repeating_trigger may keep stale values) and is not expressible as a single-run contract: NOT claimed'], witness='mapper', rests_on=['C19', 'C01']),
     'C08': dict(units=['mapper'], level='proof', trusted_base=TB_MAPPER, assumptions=AS_MAPPER + [
@@ -78,5 +80,10 @@ PROPS = {
                               'the native probe uses a real pipe: what the kernel delivers on a pipe is what was written'],
                 assumptions=['no deductive verifier in this sandbox reaches send (closure capturing &mut, not a retain) or next (nix read, FromPrimitive derive): no Verus claim is made; Kani is the bounded model checker of the same tool family',
                              'batches of arbitrary length are covered only by fixed lengths (0, 1, 2) in Kani and by random batches natively: bounded, never counted as proved; the one-record layout is complete over all key codes']),
+    'C05': dict(units=['mapper'], level='proof', trusted_base=TB_MAPPER + [AS_ANYMOD], assumptions=AS_MAPPER + [
+                    '"physically pressed" is read through the mapper: the theorems are stated per step over what the mapper considers pressed (a foreign key is never absorbed, so it is considered pressed from its press to its release; after a release-all the mapper has forgotten keys that are still physically down, as the statement of C12 intends)',
+                    '"with an empty layout the output stream equals the input stream" is proved for every event that is not ill-formed (a press of a key that is down / a release of a key that is up produces no output, C09)',
+                    'in-effect clauses: "no other mapping also outputs it" is read as: every mapping of the layout that outputs the key has the same trigger, output, repeat and absorbing list as the mapping in effect'],
+                witness='mapper', rests_on=['C19'], extras=['anymod_bounded']),
     'C07': dict(units=['mapper'], level='proof', trusted_base=TB_MAPPER, assumptions=AS_MAPPER, witness='mapper', rests_on=['C19']),
 }
